@@ -101,7 +101,9 @@ def vp_group_sql(rule: ViralPropagationRule, col_ref: str) -> str:
     if rule.aggregate_function is not None:
         return f"{_AGG_GROUP[rule.aggregate_function]}({col_ref})"
     case = _enumerated_case(rule, "acc", "x")
-    return f"list_reduce(list({col_ref}), (acc, x) -> {case})"
+    # Fold the values in sorted order: the result must not depend on the order in which
+    # the datapoints of the group happen to be stored (the rule need not be associative).
+    return f"list_reduce(list_sort(list({col_ref})), (acc, x) -> {case})"
 
 
 def vp_group_sql_windowed(rule: ViralPropagationRule, col_ref: str, over_clause: str) -> str:
@@ -109,7 +111,7 @@ def vp_group_sql_windowed(rule: ViralPropagationRule, col_ref: str, over_clause:
     if rule.aggregate_function is not None:
         return f"{_AGG_GROUP[rule.aggregate_function]}({col_ref}) OVER ({over_clause})"
     case = _enumerated_case(rule, "acc", "x")
-    return f"list_reduce(list({col_ref}) OVER ({over_clause}), (acc, x) -> {case})"
+    return f"list_reduce(list_sort(list({col_ref}) OVER ({over_clause})), (acc, x) -> {case})"
 
 
 def vp_no_rule_group_sql(col_ref: str) -> str:
